@@ -85,6 +85,7 @@ type Report struct {
 	Samples     []PathSample
 	Steps       int64
 	Truncated   bool
+	DeadlineHit bool // stopped by Config.Deadline (the caller decides what that means)
 	UnwindCex   bool
 	SolverErrs  []string
 	CrossChecks int
@@ -229,8 +230,7 @@ func (x *explorer) runWorker(id int) {
 		x.active--
 		if !x.cfg.Deadline.IsZero() && time.Now().After(x.cfg.Deadline) {
 			x.stopped = true
-			x.rep.Truncated = true
-			x.rep.problem("deadline reached")
+			x.rep.DeadlineHit = true
 		}
 		x.mu.Unlock()
 		x.cond.Broadcast()
@@ -284,6 +284,7 @@ func (w *worker) runPath(item workItem) {
 	in.permBySize = nil
 	in.mon = nil
 	in.vfs = nil
+	in.hostVars = nil
 	in.vfsOrder = nil
 	in.mons = [2]*monitor{}
 	if in.dirty {
